@@ -8,3 +8,4 @@ pub mod frontend;
 pub mod alloc;
 pub mod sandbox;
 pub mod lexer;
+pub mod canon;
